@@ -35,6 +35,14 @@ class _TrapMixin(object):
             return attrs[name]
         raise AttributeError(name)
 
+    def __setattr__(self, name, value):
+        _fire(self, "setattr", name)
+        object.__getattribute__(self, "__dict__")["_attrs"][name] = value
+
+    def __delattr__(self, name):
+        _fire(self, "delattr", name)
+        object.__getattribute__(self, "__dict__")["_attrs"].pop(name, None)
+
     def __eq__(self, other):
         _fire(self, "eq")
         return self is other
@@ -81,6 +89,45 @@ class TrapModule(_TrapMixin, types.ModuleType):
     """a ModuleType subclass"""
 
 
+# Objects whose *class* has an attribute called `used` (the name of `_UseChecker`'s flag): a class constant, a property
+# with a recording setter, a dataclass field with a default, on plain objects and on a ModuleType subclass.  Reading the
+# class attribute through `type(obj)` records nothing (it does not touch the object); assigning `obj.used = …` does.
+class TrapUsedConst(_TrapMixin):
+    used = False
+
+
+def _used_get(self):
+    _fire(self, "getattr", "used")
+    return object.__getattribute__(self, "__dict__")["_attrs"].get("used", False)
+
+
+def _used_set(self, value):
+    _fire(self, "setattr", "used")
+    object.__getattribute__(self, "__dict__")["_attrs"]["used"] = value
+
+
+class TrapUsedProp(_TrapMixin):
+    used = property(_used_get, _used_set)
+
+
+import dataclasses as _dc
+
+
+@_dc.dataclass(eq=False, repr=False)
+class TrapUsedField(_TrapMixin):
+    used: bool = False
+    name: str = ""
+    lineno: int = 0
+
+
+class TrapModuleUsed(_TrapMixin, types.ModuleType):
+    """a ModuleType subclass with a class-level `used`"""
+    used = False
+
+
+USED_KINDS = {"trap_uc": TrapUsedConst, "trap_up": TrapUsedProp, "trap_ud": TrapUsedField}
+
+
 def _mk_prop_class(names):
     """a class whose listed attributes are recording properties and whose other attributes go through __getattr__"""
     ns = {}
@@ -125,9 +172,11 @@ def build(spec):
         if k == "int":
             objs.append(1000 + i)
             continue
-        if k == "tmod":
-            x = types.ModuleType.__new__(TrapModule)
+        if k in ("tmod", "tmod_uc"):
+            x = types.ModuleType.__new__(TrapModule if k == "tmod" else TrapModuleUsed)
             types.ModuleType.__init__(x, "tm%d" % i)
+        elif k in USED_KINDS:
+            x = object.__new__(USED_KINDS[k])
         elif k == "prop":
             x = object.__new__(_mk_prop_class(sorted(o["attrs"])))
         else:
@@ -184,8 +233,10 @@ class C20(Prop):
         "Pfb.PyCore.symbolNeedsImport_spec",
     ]
     rule = ("find_missing_imports(code, namespaces) with code = a dotted name of depth 1-5, a generated mini-Python program "
-            "(source) or its ast; namespaces = 1-3 dicts populated with trap objects (recording __getattribute__, properties, "
-            "__eq__, __hash__, __bool__, __len__, __iter__, __call__, __repr__; ModuleType subclasses; proxies), None and ints; "
+            "(source) or its ast; namespaces = 1-3 dicts populated with trap objects (recording __getattribute__, __setattr__, "
+            "__delattr__, properties, __eq__, __hash__, __bool__, __len__, __iter__, __call__, __repr__; ModuleType subclasses; "
+            "proxies; objects whose class has an attribute named `used` — class constant, property with recording setter, "
+            "dataclass field — like the analysis' own `_UseChecker`), None and ints; "
             "a registry (sys.modules entries for a private universe ta/tb/tc) that is mostly, not always, consistent with the "
             "attribute graph; objects that are nobody's registry entry raise on any touch; a recording sys.meta_path finder. "
             "non-trivial = at least one recorded event or one reported name; distinct by code+namespaces+registry")
@@ -214,6 +265,10 @@ class C20(Prop):
         for k in range(nobj):
             r = rng.random()
             kind = "trap" if r < 0.4 else "tmod" if r < 0.65 else "prop" if r < 0.85 else "none" if r < 0.93 else "int"
+            if kind == "trap" and r >= 0.25:
+                kind = "trap_uc" if r < 0.30 else "trap_up" if r < 0.35 else "trap_ud"
+            elif kind == "tmod" and r >= 0.60:
+                kind = "tmod_uc"
             objs.append(dict(kind=kind, attrs={}))
         for o in objs:
             if o["kind"] in ("none", "int"):
